@@ -336,11 +336,11 @@ UNITS = {
         "contracts": ["contracts/json_object.vc"],
     },
     "urlpath": {
-        "preludes": ["shims/core.rs", "shims/bytes.rs", "shims/urlpath.rs"],
+        "preludes": ["shims/core.rs", "shims/bytes.rs", "shims/strslice.rs", "shims/urlpath.rs"],
         "specs": ["contracts/spec/urlpath.rs"],
         "sources": [
             SYMBOL_SRC,
-            ("src/url/path/mod.rs", ["struct:UrlPath", "struct:Part", "fn:UrlPath::extract_parts_from_pattern"]),
+            ("src/url/path/mod.rs", ["struct:UrlPath", "struct:Part", "fn:UrlPath::extract_parts_from_pattern", "fn:UrlPath::is_matching", "fn:UrlPath::build"]),
         ],
         "contracts": ["contracts/urlpath.vc"],
     },
@@ -478,7 +478,7 @@ PROPS = {
             "RawUnprocessedJSONArray::split_into_vector_of_strings / termination of 9 loops + postcondition items_ok (every item non-blank, a quoted item has 2+ characters) which JSONArrayOfStrings::parse_as_list_string needs for its slicing string[1..len-1]",
             "UrlPath::extract_parts_from_pattern / postcondition / parts_ok(res): tokens and static texts alternate, static texts are non-empty, tokens have a name",
         ],
-        "assumptions": ["entry points NOT under contract (listed so that the claim is not read as complete; explored by the `parsers` routine on every run): the config-file reader, UrlPath::is_matching / extract / build (their pattern parser UrlPath::extract_parts_from_pattern IS under contract and guarantees the alternation of parts they unwrap on), JSONArrayOfObjects::from_json / JSONArrayOfNulls (user traits), Header / Content-Range value parsers other than those of the response reader",
+        "assumptions": ["entry points NOT under contract (listed so that the claim is not read as complete; explored by the `parsers` routine on every run): the config-file reader, UrlPath::extract (UrlPath::extract_parts_from_pattern, is_matching and build ARE under contract; the pattern parser guarantees the alternation of parts that all three unwrap on), JSONArrayOfObjects::from_json / JSONArrayOfNulls (user traits), Header / Content-Range value parsers other than those of the response reader",
                         "JSON scanners (JSON::parse_as_properties, RawUnprocessedJSONArray::split_into_vector_of_strings, the typed list readers): totality is proved for inputs below 2 GiB (i32 bracket counters); std::io::Cursor::read_exact / read_until, char::is_numeric / is_ascii_control / is_whitespace, <T as FromStr> are assumed std contracts",
                         "termination is proved; STACK DEPTH is not expressible in a contract: Request::parse, Response::parse, FormMultipartData::parse and the multipart/byteranges reader recurse once per line / per part and overflow a 2 MiB thread stack for inputs of 0.2 - 1 MB (known findings, reproduced on every run by the `stack` routine in child processes)"],
     },
